@@ -88,7 +88,9 @@ def nest(snippets: list):
 
 def parse_value(value: str):
     global opt
-    return parse(value.strip(), opt)[0].value
+    props = parse(value.strip(), opt)
+    # An empty alternative (e.g. `a:b|`) parses to no property at all
+    return props[0].value if props else []
 
 
 def is_property(snippet):
